@@ -487,7 +487,10 @@ deriving Inhabited
 /-- the root is entered with the empty path and key `None`, and does not extend the path -/
 def gRoot (c : GCfg) (n : Nat) (root : Val) : Option GRes :=
   match c.en [] .none root with
-  | none => some .typeError
+  | none =>
+    -- not traversed: the root is handed to visit like any leaf; with nothing to append the result
+    -- to, `remap` raises `TypeError` - unless visit drops it, then the root itself is returned
+    if (applyVisit c.vf [] .none root).isEmpty then some (.ok root) else some .typeError
   | some (np, items) =>
     match gItems c n [] items with
     | none => none
@@ -520,7 +523,9 @@ def gstep (c : GCfg) (s : GSt) : Option GSt :=
                     nis := (s.path, []) :: s.nis, first := false }
     | none =>
       match s.nis with
-      | [] => some { s with stack := rest, value := v, first := false, err := true }
+      | [] =>
+        if (applyVisit c.vf s.path k v).isEmpty then some { s with stack := rest, value := v, first := false }
+        else some { s with stack := rest, value := v, first := false, err := true }
       | (pp, acc) :: nr =>
         some { s with stack := rest, value := v, first := false,
                       nis := (pp, acc ++ applyVisit c.vf s.path k v) :: nr }
